@@ -9,6 +9,7 @@ from sa.core import REPO
 out = {}
 allfuncs = []
 alldefs = {}
+calls = {}
 for dirpath, dirnames, filenames in os.walk(os.path.join(REPO, 'photutils')):
     dirnames[:] = sorted(d for d in dirnames if d not in ('tests', '__pycache__'))
     for fn in sorted(filenames):
@@ -22,6 +23,9 @@ for dirpath, dirnames, filenames in os.walk(os.path.join(REPO, 'photutils')):
         tree = ast.parse(open(path, encoding='utf-8').read())
         for q, node in canon._functions(tree, mod):
             allfuncs.append(q)
+            callees = sorted({(c.func.attr if isinstance(c.func, ast.Attribute) else c.func.id) for c in ast.walk(node)
+                              if isinstance(c, ast.Call) and isinstance(c.func, (ast.Attribute, ast.Name))})
+            calls[q] = [c for c in callees if c.startswith('_') and not c.startswith('__')]
             d, alld = canon.local_defs(node, want_all=True)
             if d:
                 out[q] = d
@@ -30,5 +34,6 @@ for dirpath, dirnames, filenames in os.walk(os.path.join(REPO, 'photutils')):
                 alldefs[q] = multi
 out['__functions__'] = sorted(allfuncs)
 out['__alldefs__'] = alldefs
+out['__calls__'] = {k: v for k, v in calls.items() if v}
 json.dump({k: out[k] for k in sorted(out)}, open(os.path.join(V, 'canon_locals.json'), 'w'), indent=0)
 print(len(allfuncs), 'functions,', sum(len(v) for k, v in out.items() if not k.startswith('__')), 'locals')
